@@ -537,7 +537,19 @@ func (c *Ctx) c01EnvelopeBinding(R string) {
 					}
 					n := calleeName(k)
 					if n != "ssl/cjson.EncodeCanonical" && n != "encoding/json.Marshal" && n != "encoding/json.MarshalIndent" {
-						return false
+						// an unexported encoding helper handed the payload parameter: every encoder call in it encodes
+						// its own parameter (which encoders are acceptable is R-C11-3)
+						h := k.Call.StaticCallee()
+						if h == nil || h.Blocks == nil || h.Pkg != sp.Pkg || (h.Object() != nil && h.Object().Exported()) || len(k.Call.Args) == 0 || len(h.Params) == 0 || resolve(k.Call.Args[0], k) != ssa.Value(sp.Params[1]) {
+							return false
+						}
+						encs := callsIn(h, "ssl/cjson.EncodeCanonical", "encoding/json.Marshal", "encoding/json.MarshalIndent")
+						for _, e := range encs {
+							if resolve(e.Common().Args[0], e) != ssa.Value(h.Params[0]) {
+								return false
+							}
+						}
+						return len(encs) > 0
 					}
 					return resolve(k.Call.Args[0], k) == ssa.Value(sp.Params[1])
 				}, true)
